@@ -442,18 +442,31 @@ func nativeReplay(repo, verif string, harnessDirs []string, replayPath string) (
 	if bout, err := build.CombinedOutput(); err != nil {
 		return false, "replay build failed: " + string(bout)
 	}
-	cmd := exec.Command(bin, "-test.run", "^TestVerifReplay$", "-test.v", "-test.count=1", "-test.timeout=10m")
-	cmd.Dir = tmp
-	cmd.Env = env
-	out, _ := cmd.CombinedOutput()
-	so := string(out)
-	ok := false
-	if doc.Label == "uncaught-panic" {
-		ok = strings.Contains(so, "VERIF-REPLAY: PANIC")
-	} else {
-		ok = strings.Contains(so, "SYM-ASSERT-FAILED "+doc.Label+"\n") || strings.Contains(so, "SYM-ASSERT-FAILED "+doc.Label+"\r")
+	// Go's map iteration order cannot be dictated natively: a counterexample that
+	// depends on it is replayed repeatedly until the runtime happens to pick a
+	// diverging order (bounded).
+	attempts := 1
+	if strings.Contains(string(b), "\"maporder#") {
+		attempts = 40
 	}
-	return ok, so
+	so := ""
+	for a := 0; a < attempts; a++ {
+		cmd := exec.Command(bin, "-test.run", "^TestVerifReplay$", "-test.v", "-test.count=1", "-test.timeout=10m")
+		cmd.Dir = tmp
+		cmd.Env = env
+		out, _ := cmd.CombinedOutput()
+		so = string(out)
+		ok := false
+		if doc.Label == "uncaught-panic" {
+			ok = strings.Contains(so, "VERIF-REPLAY: PANIC")
+		} else {
+			ok = strings.Contains(so, "SYM-ASSERT-FAILED "+doc.Label+"\n") || strings.Contains(so, "SYM-ASSERT-FAILED "+doc.Label+"\r")
+		}
+		if ok {
+			return true, so
+		}
+	}
+	return false, so
 }
 
 func cmdReplay(args []string) int {
